@@ -26,6 +26,7 @@ LEVEL_TEXT = (
 )
 LEVEL_NOTE = "Trusts R-SCAN (refmodel/scan.py) and Python's ast module; own-ancestor-package imports are exempt as the property says."
 LEVEL_TEXT += ' Import forms include one statement that imports a sub module and a plain name of the same package (absolute and relative).'
+LEVEL_TEXT += ' Hostile sources are literal bytes (UTF-8 BOM, PEP 263 declaration, CRLF, form feed, PEP 695 syntax, 60-deep nesting). Extra shards scan random projects (a quarter of them wide and deep) under independently drawn options - file exclusions, level limit, kept externals with external exclusions, module_path below the root, module-object entry point - judged by the same deciding steps. Name pools include unusual legal identifiers (non-ASCII, combining marks, U+00B7, case / zero-padding twins, py*/init* names).'
 RULE = (
     "an evaluation = one import statement (alias) checked against the built graph; a case = one (nesting path, import form) pair or one "
     "random project; non-trivial = the statement names an internal scanned module other than the importer's ancestors (an edge is required); "
